@@ -445,13 +445,16 @@ def ref_template_errors(cmd, values, nin, nout):
     return False
 
 
-def ob_templates(nargs):
+def ob_templates(nargs, affix=True):
     def h():
         nin = 1 + choose(2, 'ninputs'); nout = 1 + choose(2, 'noutputs')
         inputs = ['src/in0.c', 'in1.txt'][:nin]; outputs = ['out/o0.h', 'out/o1.c'][:nout]
         values = mesonlib.get_filenames_templates_dict(list(inputs), list(outputs))
         cmd = []
         for i in range(nargs):
+            if not affix:
+                # several arguments, each a bare token or 'x=' + token: the checks that look at EVERY argument (an index out of range in a later one)
+                cmd.append(['', 'x='][choose(2, 'embedded%d' % i)] + TOKENS[choose(len(TOKENS), 'token%d' % i)]); continue
             pre = sym_str(choose(3, 'prelen%d' % i), 'pre%d' % i, alphabet='aA@ $')          # 'A': an unknown upper-case @NAME@ run that shares its closing @ with a real template
             post = sym_str(choose(2, 'postlen%d' % i), 'post%d' % i, alphabet='aA@ $')
             cmd.append(pre + TOKENS[choose(len(TOKENS), 'token%d' % i)] + post)
@@ -711,6 +714,7 @@ def obligations(tier):
     for n in (1,) if q else (1, 2):
         out.append(Obligation('templates[%d]' % n, ob_templates(n), dict(arguments=n, shape='0-2 chars over {a, A, @, space, $} + one of %d template tokens (or none) + 0-1 chars' % len(TOKENS),
                               inputs='1-2', outputs='1-2'), labels=('substituted', 'rejected'), max_paths=5000000))
+    out.append(Obligation('templates-tokens[2]', ob_templates(2, False), dict(arguments=2, shape="each a template token or 'x=' + token, %d tokens" % len(TOKENS), inputs='1-2', outputs='1-2'), labels=('substituted', 'rejected'), max_paths=5000000))
     for lens in ([1], [2], [1, 1]) if q else ([1], [2], [3], [1, 1], [2, 2]):
         out.append(Obligation('join-split%s' % lens, ob_joinsplit(lens), dict(arg_lengths=lens), labels=('done',), max_paths=3000000))
     out.append(Obligation('link-arg-sources', ob_link_arg_sources(), dict(real='Compiler.get_build_link_args, Build.get_project_link_args / get_global_link_args', lists='0-2 symbolic 1-char strings each', targets='2-3 in sequence'), labels=('done',)))
